@@ -1090,7 +1090,7 @@ fn scripted() -> Vec<(String, Vec<String>)> {
     out.push(("expired-swept".to_string(), s(&[
         format!("login 1 {t}"), format!("record 0 {}", t + NS),
         format!("login 1 {}", t + 86_000 * NS), format!("record 0 {}", t + 86_001 * NS),
-        format!("valid 1 - - {}", t + 86_400 * NS - 7 + NS),
+        format!("valid 1 - - {}", t + 86_400 * NS - 7),
         format!("valid 1 - - {}", t + 86_401 * NS),
     ])));
     out
